@@ -291,6 +291,20 @@ def work_invoke(payload, skip, report):
     return acc
 
 
+def replay(case):
+    """Replays one (page text, configuration) case; the page is re-found in the generated page list by its text."""
+    ctx = make_ctx()
+    try:
+        for tier in ("quick", "thorough"):
+            for page in pages(tier):
+                if render(page) == case["page"]:
+                    _, out = check(ctx, page, case["config"])
+                    return [{"oracle": o, "observed": ob, "expected": ex} for o, ob, ex in out]
+    finally:
+        close_ctx(ctx)
+    return None
+
+
 def work(payload, skip, report):
     acc = Acc(PROP)
     tier, cfgs = payload
